@@ -917,7 +917,7 @@ impl C19 {
                         at(step, kind, SIZE_NAMES[n]);
                         // Sorting is another property's subject (C11), and so is whether it accepts
                         // arbitrary words: if it panics, the register is simply given up.
-                        let sorted = std::panic::catch_unwind(std::panic::AssertUnwindSafe(|| reg_sort_in_place(&mut tmp))).is_ok();
+                        let sorted = crate::sim::swallow_crate_panic(|| reg_sort_in_place(&mut tmp)).is_some();
                         if sorted {
                             regs[r] = Some(tmp);
                             // The array model takes the observed result and is held to it from here on.
